@@ -33,6 +33,15 @@ MEMPOOL_HARNESSES = [
      'obligations': ['REAL MemPool::generatePopData under small configured limits (max VBK blocks / VTBs / ATVs per ALT block, PopData byte limit at and just below the sizes that matter): every generated PopData respects every limit, has no duplicate ids, leaves the trees untouched, and the next ALT block carrying exactly it activates; three rounds (generate, block, removeAll): nothing is offered twice; with generous limits everything is offered at once'],
      'rungs': {'quick': [{'bound': 'pool {VBK2..5, ATV in VBK3, VTB in VBK4, ATV in VBK5}; max VBK 1..4, max VTB 0..1, max ATV 0..2, 5 byte limits (generous, exact size of everything, one less, context+first ATV, one less); 3 rounds', 'timeout': 280}],
                'thorough': [{'bound': 'as quick', 'timeout': 900}]}},
+    {'name': 'h_mempool_vbktie', 'src': 'real/h_mempool.cpp', 'entry': 'h_mempool', 'repo_srcs': srcsets_real.REAL, 'defines': ['MODE_VBKTIE'], 'covers': [1, 2], 'jobs': 2, 'override': True,
+     'obligations': ['REAL MemPool::generatePopData with two equal-work VBK forks on chain and a pooled block extending one of them: all three trees including the VBK best chain (first-seen fork) are exactly as before the call; the block is offered; once a real ALT block carries it the extended fork becomes best'],
+     'rungs': {'quick': [{'bound': 'VBK forks 3 and 4 on block 2; pooled block 5 on either', 'timeout': 200}], 'thorough': [{'bound': 'as quick', 'timeout': 400}]}},
+    {'name': 'h_mempool_timely', 'src': 'real/h_mempool.cpp', 'entry': 'h_mempool', 'repo_srcs': srcsets_real.REAL, 'defines': ['MODE_TIMELY'], 'covers': [1, 2], 'jobs': 8, 'override': True,
+     'obligations': ['REAL MemPool timeliness == tree timeliness: an honest ATV endorsing block E is accepted by submit and offered by generatePopData on tip T exactly when a next block carrying it directly activates (T.height + 1 <= E.height + settlement interval), including the last timely block'],
+     'rungs': {'quick': [{'bound': 'ALT chain of 4, tip 2..4, endorsed block 1..tip, settlement interval 3', 'timeout': 200}], 'thorough': [{'bound': 'as quick', 'timeout': 400}]}},
+    {'name': 'h_mempool_pair', 'src': 'real/h_mempool.cpp', 'entry': 'h_mempool', 'repo_srcs': srcsets_real.REAL, 'defines': ['MODE_PAIR'], 'covers': [1, 2], 'jobs': 4, 'override': True,
+     'obligations': ['REAL MemPool with two honest ATVs of different miners that endorse the same ALT block with the same fee in the same VBK block (real two-leaf Merkle tree): both are accepted, the views agree, both are offered once, the next block carrying them activates with two endorsements, removeAll forgets both; a resubmission changes nothing'],
+     'rungs': {'quick': [{'bound': 'both submission orders, optional resubmission', 'timeout': 200}], 'thorough': [{'bound': 'as quick', 'timeout': 400}]}},
     {'name': 'h_mempool_stale', 'src': 'real/h_mempool.cpp', 'entry': 'h_mempool', 'repo_srcs': srcsets_real.REAL, 'defines': ['MODE_STALE'], 'covers': [1], 'jobs': 2,
      'obligations': ['REAL MemPool::cleanUp on a pool holding 1..2 connected ATVs whose VBK block fell behind the old-blocks window: no freed memory is touched (engine use-after-free check), stale payloads are forgotten'],
      'rungs': {'quick': [{'bound': '1..2 connected ATVs on a VBK block 3 blocks behind the VBK tip, old-blocks window 1 (pool state constructed directly: what a successful submit<ATV> leaves)', 'timeout': 200}], 'thorough': [{'bound': 'as quick', 'timeout': 400}]}},
@@ -51,9 +60,9 @@ PAYOUT_HARNESSES = [
                'thorough': [{'bound': 'as quick', 'timeout': 900}]}},
 ]
 RELOAD_HARNESSES = [
-    {'name': 'h_reload', 'src': 'real/h_reload.cpp', 'entry': 'h_reload', 'repo_srcs': srcsets_real.REAL + ['src/pop/storage/adaptors/block_provider_impl.cpp'], 'covers': [1, 2, 3], 'jobs': 16,
+    {'name': 'h_reload', 'src': 'real/h_reload.cpp', 'entry': 'h_reload', 'repo_srcs': srcsets_real.REAL + ['src/pop/storage/adaptors/block_provider_impl.cpp'], 'covers': [1, 2, 3, 4], 'jobs': 16,
      'obligations': ['REAL trees saved with saveTrees() through the library adaptors (BlockBatchImpl/BlockReaderImpl over InmemStorageImpl: every index is serialized and parsed back) and loaded into a fresh AltBlockTree with loadTrees(): the loaded instance has the same blocks, heights, status bits, payload ids, endorsements, reference counts, chain work, tips and best chains in the ALT, VBK and BTC trees',
-                     'the same holds after a continuation (switch / new block / invalidate+revalidate / the body of an already saved header arrives) followed by an INCREMENTAL save (only dirty indices written)',
+                     'the same holds after a continuation (switch / new block carrying an endorsement at the last timely distance / invalidate+revalidate / the body of an already saved header arrives) followed by an INCREMENTAL save (only dirty indices written)',
                      'after loading, both instances give the same verdict and reach the same state for one more setState; every index is clean after a save'],
      'rungs': {'quick': [{'bound': 'ALT tree 1-2-{3,4}, 5 on 1; VBK context of 3 blocks, optional VTB (in ALT 2), optional ATVs (ALT 3, ALT 4), optional contextually invalid block 5; header-only block 7 on 3 with child 8 whose body is already there; any first tip; 5 continuations; normal and fast load; any final target', 'timeout': 450}],
                'thorough': [{'bound': 'as quick', 'timeout': 900}]}},
